@@ -138,6 +138,22 @@ CHECKS = {
                   "storages validated by TLC against the storage contract (trace validation)",
         ref="DESIGN.md section 4 C08, section 3.5",
     ),
+    "C09": dict(
+        text="Functional.tla (thin, as announced): what a sampler or pruner answers is a function of (scenario, request, "
+             "abstract history) where the history is built BY THE SPEC from the consumed events and contains trial numbers, "
+             "parameters, reports, states and values but never ids; FunctionalMC checks the memo lemmas. 46 seeded "
+             "define-by-run programs (conditional branch, reports + should_prune, caught failures) x all 13 built-in "
+             "sampler configurations x 9 pruners are each run on several configurations (in-memory twice, with another study "
+             "and split into 2-3 optimize calls, journal, SQLite, cached SQLite, gRPC over in-memory/journal/SQLite); all "
+             "runs of a scenario form one trace and TLC rejects the first answer that contradicts an earlier run; "
+             "copy_study to other backends must reproduce every trial field.",
+        note="Thin: no sampler mathematics is modelled; weight is on the differential runs judged by TLC. GP kept because "
+             "two identical runs agree. Known findings K9 (NSGA parent cache uses ids as positions) and K10 (gRPC proxy "
+             "returns params in proto-map order) are matched by exact shape.",
+        technique="TLA+ functional-dependence spec model-checked with TLC; differential runs across backends validated "
+                  "by TLC (trace validation)",
+        ref="DESIGN.md section 4 C09, section 3.7",
+    ),
     "C10": dict(
         text="Suggest.tla: per trial the five-way decision of Trial._suggest (reuse / fixed / single-point / relative if "
              "contained / independent) with the sampler as a nondeterministic choice constrained to the domain; "
@@ -178,6 +194,20 @@ CHECKS = {
              "(constraint-less trials), D11 (two documented errors at once).",
         technique="TLA+ oracle model-checked with TLC; answers of the real study API validated by TLC (trace validation)",
         ref="DESIGN.md section 4 C12, section 3.8",
+    ),
+    "C13": dict(
+        text="Mirror.tla: exact integer decision models (percentile/median, threshold with mirrored bounds, patient, "
+             "successive-halving rung, TPE below/above split incl. the pruned-trial score, best trial, Pareto set and rank "
+             "for every flipped subset) with the theorem Decide(dir, v) = Decide(flip(dir), -v) checked exhaustively by TLC "
+             "(a model with the percentile side not flipped must fail). 126 scenarios per run (every single-objective "
+             "sampler x pruner pair incl. GP, 24 two-objective scenarios with all flip subsets): mirrored real runs with "
+             "exactly negatable pairwise-distinct values form one trace with sign-normalised keys (Functional.tla); every "
+             "suggested value, should_prune answer, final state and best trial(s) must agree.",
+        note="Thin for the sampler mathematics (covered by functional agreement of the mirrored runs). Known findings K11 "
+             "(NSGA-III niching ignores direction) and K12 (NSGA-II crowding ties follow the raw last objective) matched by "
+             "exact shape; negative control (tie order only) silent.",
+        technique="TLA+ mirror theorem model-checked with TLC; mirrored real runs validated by TLC (trace validation)",
+        ref="DESIGN.md section 4 C13, section 3.8",
     ),
     "C14": dict(
         text="BruteForce.tla / Grid.tla: property-level machines over a program given as its set of leaf paths "
